@@ -204,7 +204,7 @@ CHECKS["C04"] = {
         {"name": "TestMonitorFaults", "quick": 12, "thorough": 200, "shards": 16, "timeout_q": 400, "timeout_t": 3000},
         {"name": "TestMonitorFaultsUni", "quick": 8, "thorough": 120, "shards": 16, "timeout_q": 400, "timeout_t": 3000},
         {"name": "TestMonitorRegroup", "quick": 300, "thorough": 4000, "shards": 16, "timeout_q": 400},
-        {"name": "TestMonitorHeartBeats", "quick": 70, "thorough": 150, "shards": 8, "timeout_q": 400},
+        {"name": "TestMonitorHeartBeats", "quick": 110, "thorough": 150, "shards": 8, "timeout_q": 400},
     ],
 }
 
